@@ -35,6 +35,10 @@ type segmentStack struct {
 
 	// childSegStacks recursively store child collection segmentStacks.
 	childSegStacks map[string]*segmentStack
+
+	// numBatches is the number of batches that were incorporated into
+	// this stack while it is the stackDirtyTop of a collection.
+	numBatches int
 }
 
 func (ss *segmentStack) addRef() {
